@@ -532,8 +532,19 @@ class _Analysis:
             self.merge(env, *(live or [e1, e2]))
         elif isinstance(st, (ast.For, ast.AsyncFor)):
             it = self.eval(st.iter, env)
+            # for a, b in zip(A, B): a walks over A and b over B (element-wise, never mixed)
+            zipped = None
+            if isinstance(st.iter, ast.Call) and isinstance(st.iter.func, ast.Name) and st.iter.func.id == "zip" and isinstance(st.target, (ast.Tuple, ast.List)) \
+                    and len(st.target.elts) == len(st.iter.args) and not st.iter.keywords and not any(isinstance(a_, ast.Starred) for a_ in st.iter.args):
+                zipped = [self._elems(self.eval(a_, env)) for a_ in st.iter.args]
             for _ in range(2):
                 e1 = dict(env)
+                if zipped is not None:
+                    for t_, r_ in zip(st.target.elts, zipped):
+                        self.bind(t_, r_, e1)
+                    self.exec_block(st.body, e1)
+                    self.merge(env, e1)
+                    continue
                 self.bind(st.target, self._elems(it) if not self._iter_is_elems(st.iter) else it, e1)
                 self.exec_block(st.body, e1)
                 self.merge(env, e1)
